@@ -387,6 +387,7 @@ pub fn run_property<S: Scenario>(spec: &PropertySpec, opts: &Options) -> i32 {
     let mut first_violation: Option<(u64, Outcome)> = None;
     let mut known_hits: BTreeMap<String, u64> = BTreeMap::new();
     let mut new_violations = 0u64;
+    let mut class_hist: BTreeMap<String, u64> = BTreeMap::new();
     let mut batch_digest = blake3::Hasher::new();
     for (i, r) in &results {
         batch_digest.update(&i.to_le_bytes());
@@ -396,11 +397,13 @@ pub fn run_property<S: Scenario>(spec: &PropertySpec, opts: &Options) -> i32 {
         }
         sigs.extend(r.signatures.iter().copied());
         if let Outcome::Violation { class, .. } = &r.outcome {
+            *class_hist.entry(class.clone()).or_insert(0) += 1;
             if open_classes.contains(class) {
                 *known_hits.entry(class.clone()).or_insert(0) += 1;
             } else {
                 new_violations += 1;
-                if first_violation.is_none() {
+                let wanted = std::env::var("VERIF_ONLY_CLASS").ok();
+                if first_violation.is_none() && wanted.as_deref().is_none_or(|w| class.contains(w)) {
                     first_violation = Some((*i, r.outcome.clone()));
                 }
             }
@@ -529,6 +532,7 @@ pub fn run_property<S: Scenario>(spec: &PropertySpec, opts: &Options) -> i32 {
                 "components_real": spec.real_components,
                 "components_stub": spec.stub_components,
                 "known_finding_hits": known_hits,
+                "violation_classes_seen": class_hist,
                 "known_findings_reported": known_lines,
                 "avoidance_mode_runs": evaluations / 2,
                 "replay": replay_path.as_ref().map(|p| p.display().to_string()),
@@ -550,7 +554,7 @@ pub fn run_property<S: Scenario>(spec: &PropertySpec, opts: &Options) -> i32 {
         }
     }
     eprintln!(
-        "{} tier={} seed={} runs={} distinct_nontrivial={} wall={:.1}s violations={} known_hits={:?}",
+        "{} tier={} seed={} runs={} distinct_nontrivial={} wall={:.1}s violations={} known_hits={:?} classes={:?}",
         spec.id,
         opts.tier.name(),
         opts.seed,
@@ -558,7 +562,8 @@ pub fn run_property<S: Scenario>(spec: &PropertySpec, opts: &Options) -> i32 {
         sigs.len(),
         wall,
         new_violations,
-        known_hits
+        known_hits,
+        class_hist
     );
     let _ = std::fs::remove_dir_all(scratch_base());
     exit
